@@ -21,6 +21,8 @@ Updates == { NObject(<< <<NStr(kz), NNum(IntV(1))>> >>),
              NObject(<< <<NStr(kz), NObject(<< <<NStr(kb), NNum(IntV(1))>> >>)>> >>),
              NObject(<< <<NStr(kz), NObject(<< <<NStr(<<121>>), NArray(<<NVar("")>>)>> >>)>> >>), NObject(<< <<NStr(kz), NArray(<<NArray(<<NVar("")>>), NArray(<<NStr(kx)>>)>>)>> >>),
              NObject(<< <<NStr(kz), NVar("")>> >>), NObject(<< <<NStr(kz), NVar("$")>> >>), NObject(<< <<NStr(kz), NArray(<<NVar(""), PA(<<B>>)>>)>> >>),
+             \* members whose value is null are members: set like any other
+             NObject(<< <<NStr(kb), NNull>> >>), NObject(<< <<NStr(kz), NNull>> >>), NObject(<< <<NStr(<<121>>), NNull>>, <<NStr(kz), NNum(IntV(1))>> >>),
              NObject(<<>>), NNum(IntV(5)), NStr(kx), PA(<<NName(<<110, 111>>)>>), NArray(<<NObject(<< <<NStr(kz), NNum(IntV(1))>> >>)>>) }
 Deletes == { NNone, NStr(kb), NArray(<<NStr(ka), NStr(kb)>>), NNum(IntV(1)), NStr(<<110, 111>>), NArray(<<NStr(kb), NNum(IntV(1))>>),
              PA(<<NName(<<110, 111>>)>>) }
